@@ -55,6 +55,7 @@ PROPS["C08"] = {
 
 PROPS["C09"] = {
     "kani": "c09",
+    "mir": "c09",
     "level": "model_checking",
     "explanation": "Bounded model checking (Kani/CBMC) of the aggregate kernels: partial states of any split of a multiset merge to the state of the whole (AggState::merge for COUNT / TOTAL / AVG / MIN / MAX), the aggregators' update / merge / finalize equal the mathematical metric, the memory-tier update_from_event feeds exactly the stored values, snapshot_aggregator preserves the mergeable state.",
     "outside": [
@@ -79,6 +80,7 @@ PROPS["C10"] = {
 
 PROPS["C16"] = {
     "kani": "c16",
+    "mir": "c16",
     "level": "model_checking",
     "explanation": "Bounded model checking (Kani/CBMC) of the integer-epoch unit heuristic that every numeric spelling of a time goes through: for every i64 in each documented digit window the result is the floor of the denoted instant in seconds (the value an ISO-8601 spelling of the same instant gets), including instants before 1970 and both digit-count boundaries of every unit; 20+ digit integers are rejected for every i128.",
     "outside": [
@@ -198,6 +200,8 @@ PROPS["C06"] = {
 }
 
 PROPS["C08"]["trusted_base"] = MIR_TRUSTED
+PROPS["C09"]["trusted_base"] = MIR_TRUSTED
+PROPS["C16"]["trusted_base"] = MIR_TRUSTED
 PROPS["C02"]["trusted_base"] = MIR_TRUSTED
 
 # Properties not (or not yet) claimed, each with the reason. Entries are removed from here
